@@ -61,6 +61,15 @@ Theorem C20_total : forall e, parsed e = true ->
   printable (T e) = true /\ parsed (reparse (T e)) = true.
 Proof. intros e H. exact (total generics union_name C20_table_wf e H). Qed.
 
+(* The same for any other value of the union= argument that is a dotted identifier path and not a table key
+   (refs.evaluate uses the default; the argument is public). *)
+Theorem C20_any_union_name : forall u, table_wf generics u = true -> forall e,
+  (arith_free e = true -> nf generics u (transform generics u e) = nf generics u e /\
+                          bitor_free_outside_consts (transform generics u e) = true) /\
+  (parsed e = true -> transform generics u (reparse (transform generics u e)) = reparse (transform generics u e)).
+Proof. intros u W e. split; [intros H; split; [exact (meaning generics u W e H)|exact (no_pep604 generics u e H)]|].
+  intros H. exact (fixpoint generics u W e H). Qed.
+
 (* ---- regions excluded by the guard: the faithful model refutes the full statement there ---- *)
 
 (* (a | b) + c : the `|` under an arithmetic operator is not rewritten *)
@@ -105,6 +114,8 @@ Example C20_hyps_satisfiable :
 Proof. vm_compute. repeat split; discriminate. Qed.
 
 (* the identity clause is not vacuous either: typing.Optional[re.Pattern[str]] has no construct *)
+Example C20_any_union_name_inhabited : table_wf generics "Union" = true /\ table_wf generics "t.Union" = true.
+Proof. vm_compute. split; reflexivity. Qed.
 Example C20_identity_nonvacuous :
   has_constructs generics
     (Subscript (Attribute (Name "typing") "Optional") (Subscript (Attribute (Name "re") "Pattern") (Name "str"))) = false.
@@ -118,5 +129,6 @@ Print Assumptions C20_no_pep604.
 Print Assumptions C20_fixpoint.
 Print Assumptions C20_identity.
 Print Assumptions C20_total.
+Print Assumptions C20_any_union_name.
 Print Assumptions C20_refuted_arith_operand.
 Print Assumptions C20_refuted_left_spine.
